@@ -405,6 +405,11 @@ def guard_ub(body, site_bb, val, start=0):
     return best
 
 
+def _unsigned_tree(t):
+    """the tree is syntactically of an unsigned integer type (a cast to one)"""
+    return t[0] == "cast" and len(t) >= 5 and str(t[4]) in ("usize", "u8", "u16", "u32", "u64", "u128")
+
+
 def guard_lb(body, site_bb, val, start=0):
     """smallest constant L such that the guards on every path start→site imply val >= L"""
     if not _stable(val):
@@ -422,12 +427,16 @@ def guard_lb(body, site_bb, val, start=0):
                 l = {"Gt": cb + 1, "Ge": cb, "Eq": cb}.get(op)
                 if op == "Ne" and cb == 0:
                     l = 1
+            elif op == "Gt" and _unsigned_tree(b):
+                l = 1                      # val > (some unsigned value) implies val >= 1
         elif _eq_mod_casts(b, val):
             ca = const_eval(a)
             if ca is not None:
                 l = {"Lt": ca + 1, "Le": ca, "Eq": ca}.get(op)
                 if op == "Ne" and ca == 0:
                     l = 1
+            elif op == "Lt" and _unsigned_tree(a):
+                l = 1
         if l is not None:
             best = l if best is None else max(best, l)
     return best
@@ -939,8 +948,53 @@ def auto_discharge(F, s, cfg):
     return _auto_discharge(F, s, cfg)
 
 
+def _contradictory_guards(body, site_bb):
+    """the comparisons that hold on every path to the site are unsatisfiable for some stable value v
+    (lower bound implied > upper bound implied): the site is unreachable.  e.g. `if n == 0 { return }` … `assert!(n > 0)`"""
+    vals = []
+    for g, cond, pol in _cmp_guards(body, site_bb):
+        n = _norm_cmp(cond, pol)
+        if not n:
+            continue
+        op, a, b = n
+        for v, other in ((a, b), (b, a)):
+            if const_eval(other) is not None and const_eval(v) is None and _stable(v):
+                vals.append(v)
+    seen = []
+    for v in vals:
+        if any(_eq_mod_casts(v, w) for w in seen):
+            continue
+        seen.append(v)
+        lo, hi = guard_lb(body, site_bb, v), guard_ub(body, site_bb, v)
+        if lo is not None and hi is not None and lo > hi:
+            return "unreachable: guards on every path imply %s >= %d and <= %d" % (fmt(v, 60), lo, hi)
+    # a value that is one of finitely many constants (phi of literals) against a guard excluding all of them
+    for g, cond, pol in _cmp_guards(body, site_bb):
+        n = _norm_cmp(cond, pol)
+        if not n:
+            continue
+        op, a, b = n
+        for v, other, flip in ((a, b, False), (b, a, True)):
+            v0 = strip_casts(v)
+            k = const_eval(other)
+            if k is None or v0[0] != "phi":
+                continue
+            alts = [const_eval(x) for x in v0[1] if isinstance(x, tuple)]
+            if not alts or any(x is None for x in alts):
+                continue
+            o = op if not flip else {"Lt": "Gt", "Le": "Ge", "Gt": "Lt", "Ge": "Le"}.get(op, op)
+            sat = [x for x in alts if {"Lt": x < k, "Le": x <= k, "Gt": x > k, "Ge": x >= k, "Eq": x == k, "Ne": x != k}[o]]
+            if not sat:
+                return "unreachable: %s is one of %s, none of which satisfies %s %d" % (fmt(v0, 40), sorted(set(alts)), o, k)
+    return None
+
+
 def _auto_discharge(F, s, cfg):
     body = s.body
+    if s.cls in ("explicit", "unwrap"):
+        why = _contradictory_guards(body, s.bb)
+        if why:
+            return why
     if s.cls == "index" and s.kind == "BoundsCheck":
         ln, ix = body.origin(s.ops[0]), body.origin(s.ops[1])
         lnv = upper_bound(ln) if ln[0] in ("lit", "const") else None
@@ -1315,10 +1369,35 @@ def invariant(name):
 
 def check_invariant(F, name):
     key = (id(F), name)
+    if key not in _inv_memo and name.startswith("no-callers:"):
+        _inv_memo[key] = _no_callers(F, name[len("no-callers:"):])
     if key not in _inv_memo:
+        if name not in INVARIANT_CHECKS:
+            import brc  # noqa: F401  (registers the contract invariants of the core helpers)
         fn = INVARIANT_CHECKS.get(name)
         _inv_memo[key] = fn(F) if fn else (False, "no checker registered for invariant %s" % name)
     return _inv_memo[key]
+
+
+_allfacts = {}
+
+
+def _no_callers(F, fn):
+    """an `unsafe fn` whose debug_assert!s restate its documented precondition has no caller in the whole workspace outside
+    tests (all crates of the fact base are loaded for this, not only the property's)"""
+    d = F.dir
+    if d not in _allfacts:
+        _allfacts[d] = FX.Facts(d, None)
+    A = _allfacts[d]
+    e = A.fns.get(fn)
+    if e is None:
+        return False, "function %s not found" % fn
+    if not e.get("unsafe"):
+        return False, "%s is not an unsafe fn: its precondition is not the caller's obligation" % short(fn)
+    callers = [(p, c) for p, c in A.callers_of(lambda n: n == fn) if not T.is_test_support(p)]
+    if callers:
+        return False, "%s is called from %s at %s" % (short(fn), short(callers[0][0]), callers[0][1].span.loc)
+    return True, "unsafe fn with a documented precondition and no workspace caller outside tests"
 
 
 SEGITER_NEW = "sciparse::proto::dataplane_path::standard::view::SegmentIterator::<'_>::new"
